@@ -311,6 +311,8 @@ class FlwdirRaster(Flwdir):
                 raise ValueError("Invalid transform.")
         self.transform = transform
         self.latlon = latlon
+        for key in ("area", "distnc"):
+            self._cached.pop(key, None)
 
     ### WRITE / EXPORT ###
 
